@@ -326,6 +326,131 @@ theorem box_contains_hull (b : Obb K) (v1 v2 v3 : V3 K) (u s t : K) (hu : 0 ≤ 
 end obb
 
 
+/-! ## the nearest-point query of a mesh over its real OBB tree = brute force over all faces -/
+section meshq
+variable {K : Type} [Field K] [LinearOrder K] [IsStrictOrderedRing K]
+
+/-- the parameters `(s,t)` returned by `findNearestPointToFace` are barycentric coordinates of a point of the triangle
+(`det = |e0|²|e1|² − (e0·e1)² > 0`: the triangle is not degenerate) -/
+theorem triNearest_params (v1 v2 v3 p : V3 K)
+    (hdet : 0 < V3.normSq (V3.sub v2 v1) * V3.normSq (V3.sub v3 v1) - V3.dot (V3.sub v2 v1) (V3.sub v3 v1) * V3.dot (V3.sub v2 v1) (V3.sub v3 v1)) :
+    0 ≤ (triNearest v1 v2 v3 p).2.1 ∧ 0 ≤ (triNearest v1 v2 v3 p).2.2 ∧
+    (triNearest v1 v2 v3 p).2.1 + (triNearest v1 v2 v3 p).2.2 ≤ 1 := by
+  have ha0 := normSq_nonneg (V3.sub v2 v1)
+  have hc0 := normSq_nonneg (V3.sub v3 v1)
+  unfold triNearest
+  simp only []
+  generalize V3.normSq (V3.sub v2 v1) = a at *
+  generalize V3.normSq (V3.sub v3 v1) = c at *
+  generalize V3.dot (V3.sub v2 v1) (V3.sub v3 v1) = b at *
+  generalize V3.dot (V3.sub v2 v1) (V3.sub v1 p) = d
+  generalize V3.dot (V3.sub v3 v1) (V3.sub v1 p) = e
+  have ha : 0 < a := by
+    rcases lt_or_eq_of_le ha0 with h | h
+    · exact h
+    · exfalso; rw [← h] at hdet; nlinarith [mul_self_nonneg b]
+  have hc : 0 < c := by
+    rcases lt_or_eq_of_le hc0 with h | h
+    · exact h
+    · exfalso; rw [← h] at hdet; nlinarith [mul_self_nonneg b]
+  have hden : 0 < a - 2 * b + c := by nlinarith [mul_self_nonneg (a - b), mul_self_nonneg (c - b), mul_self_nonneg (a - c)]
+  split_ifs <;> simp only [not_decide_lt, not_le, not_lt, Bool.not_eq_true', decide_eq_false_iff_not] at * <;>
+    refine ⟨?_, ?_, ?_⟩ <;>
+    first
+      | (exact le_refl _)
+      | (exact zero_le_one)
+      | (simp; done)
+      | (apply div_nonneg <;> linarith)
+      | (rw [div_le_one (by linarith)]; linarith)
+      | (rw [sub_nonneg, div_le_one (by linarith)]; linarith)
+      | (rw [add_zero, div_le_one (by linarith)]; linarith)
+      | (rw [zero_add, div_le_one (by linarith)]; linarith)
+      | (exact mul_nonneg (by linarith) (div_nonneg zero_le_one hdet.le))
+      | (rw [← add_mul, mul_one_div, div_le_one hdet]; linarith)
+      | linarith
+
+omit [IsStrictOrderedRing K] in
+/-- the returned point is the convex combination `(1−s−t) v1 + s v2 + t v3` -/
+theorem triNearest_point (v1 v2 v3 p : V3 K) :
+    (triNearest v1 v2 v3 p).1 = V3.add (V3.smul (1 - (triNearest v1 v2 v3 p).2.1 - (triNearest v1 v2 v3 p).2.2) v1)
+      (V3.add (V3.smul (triNearest v1 v2 v3 p).2.1 v2) (V3.smul (triNearest v1 v2 v3 p).2.2 v3)) := by
+  have h : ∀ (s t : K), V3.add v1 (V3.add (V3.smul s (V3.sub v2 v1)) (V3.smul t (V3.sub v3 v1)))
+      = V3.add (V3.smul (1 - s - t) v1) (V3.add (V3.smul s v2) (V3.smul t v3)) := by
+    intro s t; simp only [V3.add, V3.smul, V3.sub]; apply V3.ext' <;> (simp only; ring)
+  exact h _ _
+
+/-- the non-degeneracy condition of a face: `|e0|²|e1|² − (e0·e1)² > 0` -/
+def NonDeg (T : V3 K × V3 K × V3 K) : Prop :=
+  0 < V3.normSq (V3.sub T.2.1 T.1) * V3.normSq (V3.sub T.2.2 T.1)
+      - V3.dot (V3.sub T.2.1 T.1) (V3.sub T.2.2 T.1) * V3.dot (V3.sub T.2.1 T.1) (V3.sub T.2.2 T.1)
+
+/-- a box that contains the three vertices contains the point `findNearestPointToFace` returns (mem_hull + convexity) -/
+theorem triNearest_in_box (b : Obb K) (T : V3 K × V3 K × V3 K) (p : V3 K) (hT : NonDeg T)
+    (h1 : b.contains T.1 = true) (h2 : b.contains T.2.1 = true) (h3 : b.contains T.2.2 = true) :
+    b.contains (triNearest T.1 T.2.1 T.2.2 p).1 = true := by
+  obtain ⟨hs, ht, hst⟩ := triNearest_params T.1 T.2.1 T.2.2 p hT
+  rw [triNearest_point]
+  exact box_contains_hull b _ _ _ _ _ _ (by linarith) hs ht (by ring) h1 h2 h3
+
+/-- what is checked on the real exported tree on every run (`node_contains_triangles`): every node's box is a proper box
+(rotation frame, non-negative extents) and contains the three vertices of every face stored below it -/
+def XT.Valid (tri : Nat → V3 K × V3 K × V3 K) : XT K → Prop
+  | .leaf b fs => (IsRot b.X.R ∧ 0 ≤ b.size.x ∧ 0 ≤ b.size.y ∧ 0 ≤ b.size.z) ∧
+      ∀ f ∈ fs, b.contains (tri f).1 = true ∧ b.contains (tri f).2.1 = true ∧ b.contains (tri f).2.2 = true
+  | .node b c1 c2 => (IsRot b.X.R ∧ 0 ≤ b.size.x ∧ 0 ≤ b.size.y ∧ 0 ≤ b.size.z) ∧
+      (∀ f ∈ c1.faces ++ c2.faces, b.contains (tri f).1 = true ∧ b.contains (tri f).2.1 = true ∧ b.contains (tri f).2.2 = true) ∧
+      XT.Valid tri c1 ∧ XT.Valid tri c2
+
+omit [LinearOrder K] [IsStrictOrderedRing K] in
+theorem XT.items_toBT (bound : Obb K → Option K) (t : XT K) : (t.toBT bound).items = t.faces := by
+  induction t with
+  | leaf b fs => rfl
+  | node b c1 c2 ih1 ih2 => simp only [XT.toBT, BT.items, XT.faces, ih1, ih2]
+
+theorem XT.valid_top (tri : Nat → V3 K × V3 K × V3 K) (t : XT K) (h : XT.Valid tri t) :
+    (IsRot t.box.X.R ∧ 0 ≤ t.box.size.x ∧ 0 ≤ t.box.size.y ∧ 0 ≤ t.box.size.z) ∧
+    ∀ f ∈ t.faces, t.box.contains (tri f).1 = true ∧ t.box.contains (tri f).2.1 = true ∧ t.box.contains (tri f).2.2 = true := by
+  cases t with
+  | leaf b fs => exact h
+  | node b c1 c2 => exact ⟨h.1, h.2.1⟩
+
+/-- the distance to a valid node's box is an admissible bound for the cost of every face below it -/
+theorem XT.box_bound_admissible (tri : Nat → V3 K × V3 K × V3 K) (p : V3 K) (t : XT K) (h : XT.Valid tri t)
+    (hnd : ∀ f ∈ t.faces, NonDeg (tri f)) :
+    LB (fun f => some (triDist2 (tri f).1 (tri f).2.1 (tri f).2.2 p)) (some (t.box.dist2 p)) t.faces := by
+  obtain ⟨⟨hR, hx, hy, hz⟩, hc⟩ := XT.valid_top tri t h
+  intro f hf k hk
+  simp only [Option.some.injEq] at hk
+  refine ⟨_, rfl, ?_⟩
+  rw [← hk, triDist2]
+  obtain ⟨c1, c2, c3⟩ := hc f hf
+  exact obb_bound_admissible t.box hR ⟨hx, hy, hz⟩ p _ (triNearest_in_box t.box (tri f) p (hnd f hf) c1 c2 c3)
+
+theorem XT.adm (tri : Nat → V3 K × V3 K × V3 K) (p : V3 K) (t : XT K) (h : XT.Valid tri t)
+    (hnd : ∀ f ∈ t.faces, NonDeg (tri f)) :
+    Adm (fun f => some (triDist2 (tri f).1 (tri f).2.1 (tri f).2.2 p)) (t.toBT (fun b => some (b.dist2 p))) := by
+  induction t with
+  | leaf b fs => trivial
+  | node b c1 c2 ih1 ih2 =>
+    obtain ⟨_, _, v1, v2⟩ := h
+    have n1 : ∀ f ∈ c1.faces, NonDeg (tri f) := fun f hf => hnd f (by simp [XT.faces, hf])
+    have n2 : ∀ f ∈ c2.faces, NonDeg (tri f) := fun f hf => hnd f (by simp [XT.faces, hf])
+    refine ⟨?_, ?_, ih1 v1 n1, ih2 v2 n2⟩
+    · rw [XT.items_toBT]; exact XT.box_bound_admissible tri p c1 v1 n1
+    · rw [XT.items_toBT]; exact XT.box_bound_admissible tri p c2 v2 n2
+
+/-- **mesh nearest point = brute force** for the executed query `meshNearest` over the exported real tree: if every node box
+contains the vertices of the faces below it (checked per run) and no face is degenerate (the mesh constructor rejects
+those), the face found by the OBB-tree descent minimises `triDist2` over *all* faces of the mesh.
+(That `triDist2` itself is the true point–triangle distance is NOT proved: implementation-side predicate only.) -/
+theorem mesh_nearest_eq_bruteforce (tri : Nat → V3 K × V3 K × V3 K) (tree : XT K) (p : V3 K)
+    (hv : XT.Valid tri tree) (hnd : ∀ f ∈ tree.faces, NonDeg (tri f)) :
+    Spec (fun f => some (triDist2 (tri f).1 (tri f).2.1 (tri f).2.2 p)) tree.faces (meshNearest tri tree p) := by
+  have h := bnb_eq_bruteforce _ _ (XT.adm tri p tree hv hnd)
+  rw [XT.items_toBT] at h
+  exact h
+end meshq
+
 /-! ## bounding spheres -/
 section spheres
 variable {K : Type} [Field K] [LinearOrder K] [IsStrictOrderedRing K]
